@@ -77,6 +77,31 @@ def doneFails (s : St) (ids : List Nat) : List Fail := Id.run do
     seen := i :: seen
   return fails
 
+/-- which branches of `push` the frame takes (coverage only; recomputed from the model's state) -/
+def pushTrace (s : Sorter) (data : Bytes) (off : Nat) : List String :=
+  if data.length = 0 then ["push:empty"] else
+  let en := off + data.length
+  match findStartGap s.gaps off with
+  | none => []
+  | some (i, sIn) =>
+    match s.gaps.drop i with
+    | [] => []
+    | sg :: rest =>
+      let startTag := if sIn then (if off = sg.2 then "start:at-gap-end" else "start:in-gap") else "start:before-gap"
+      let endTags := match findEndGap (sg :: rest) en with
+        | .found 0 => ["end:in-startgap"]
+        | .found _ => ["end:in-later-gap"]
+        | .prev 0 => ["end:below-startgap"]
+        | .prev 1 => ["end:behind-startgap"]
+        | .prev _ => ["end:behind-later-gap"]
+        | .nogap => []
+      let lp := replaceLoop (s.queue.length + 1) s.queue off en false
+      let loopTag := match lp.stop with
+        | .dup => "loop:dup"
+        | .cut => "loop:cut"
+        | .noEntry => if lp.replaced then "loop:replaced" else "loop:none"
+      [startTag, loopTag] ++ endTags
+
 def pushTags (old new : Sorter) (res : PushRes) (done : List Nat) (cb : Option Nat) (len : Nat) : List String :=
   let g := new.gaps.length; let g0 := old.gaps.length
   [match res with | .ok => "push:ok" | .dup => "push:dup" | .tooManyGaps => "push:gaplimit" | .panic => "push:panic"] ++
@@ -91,7 +116,10 @@ def doPush (s : St) (id off len x : Nat) (hasCb : Bool) (implRes : String) (impl
     : St × PushRes × List Nat × List String × List Fail :=
   let data := srcSeg s.salt x off len
   let cb := if hasCb then some id else none
-  let r := s.m.push data off cb
+  let ri := s.m.pushInner data off cb
+  let r : PushOut := match ri.res with     -- `Sorter.push` (computed from `pushInner` once)
+    | .dup => ⟨ri.s, .ok, ri.done ++ cbList cb⟩
+    | _ => ri
   -- ghost
   let fails := doneFails s implDone
   let recv' := if len = 0 then s.recv else ivInsert s.recv off (off + len)
@@ -111,7 +139,7 @@ def doPush (s : St) (id off len x : Nat) (hasCb : Bool) (implRes : String) (impl
                      dead := s.dead || !accepted,
                      cbPushed := if hasCb && accepted then id :: s.cbPushed else s.cbPushed,
                      doneIds := implDone ++ s.doneIds }
-  (s', r.res, r.done, pushTags s.m r.s (s.m.pushInner data off cb).res r.done cb len, fails)
+  (s', r.res, r.done, pushTags s.m r.s ri.res r.done cb len ++ pushTrace s.m data off, fails)
 
 def fmtGaps (g : List Gap) : String :=
   if g.isEmpty then "-" else ",".intercalate (g.map fun x => s!"{x.1}-{x.2}")
